@@ -205,7 +205,9 @@ func (e *Env) genMsg(t *rapid.T, lastTS *int64) MsgIn {
 		switch tk := uni(t, 30, "timekind"); {
 		case tk == 0 && !e.P.NoZeroTime:
 			in.ZeroTime = true
-		case tk == 1 && !e.Cfg.TimeIndex:
+		case tk == 1:
+			// also with a time index: the time VIEW of a log that holds a message from before 1970 is not judged
+			// (finding F1), but everything else is - the index files must still be what every code path derives
 			in.TS = rapid.SampledFrom([]int64{-5, 0, 1 << 40, -(1 << 40), 10000000000000000, 1 << 62}).Draw(t, "ts_extreme")
 		default:
 			in.TS = int64(1 + uni(t, 50, "ts"))
